@@ -147,14 +147,30 @@ func verifC15(nKeys, nLabels int, twoDeleters bool) {
 	if twoDeleters {
 		d2.healthy = true
 	}
-	_, err2 := idx.InvalidateByLabels(context.Background(), args...)
+	// the retry names all the labels again or only one of them: a key not yet deleted must still be
+	// indexed under EACH of its labels
+	retryArgs := args
+	if len(args) == 2 {
+		switch verifChoice("retryWith", 3) {
+		case 1:
+			retryArgs = args[:1]
+		case 2:
+			retryArgs = args[1:]
+		}
+	}
+	origLabelled := make([]bool, nKeys)
+	for i := range keys {
+		origLabelled[i] = labelled(i)
+	}
+	args = retryArgs // requested/labelled now speak about the retry
+	_, err2 := idx.InvalidateByLabels(context.Background(), retryArgs...)
 	verifAssert("retry after recovery succeeds", err2 == nil)
 	for i, k := range keys {
 		if labelled(i) {
 			gone1 := d1.missing[k]
 			gone2 := !twoDeleters || d2.missing[k]
 			verifAssert("after the retry every labelled key is gone from every deleter of its name", gone1 && gone2)
-		} else {
+		} else if !origLabelled[i] {
 			verifAssert("unlabelled key untouched", d1.anyCalls[k] == 0 && (!twoDeleters || d2.anyCalls[k] == 0))
 		}
 	}
